@@ -60,6 +60,8 @@ mod serve;
 mod run;
 #[cfg(feature = "mechfs")]
 mod mechfs;
+#[cfg(mech_verif)]
+pub mod verif_hooks;
 
 #[cfg(feature = "repl")]
 pub use self::repl::*;
